@@ -81,8 +81,8 @@ func (orderEngine) Gen(rng *rand.Rand, tier string, i int) any {
 	// random mixes of dual / v4-only / v6-only / failing / nil-handler / unknown plugins
 	n := rng.Intn(6)
 	for j := 0; j < n; j++ {
-		name := []string{"syn", "syn", "syn", "syn4", "syn6", "syn4", "syn6", "synfail", "synnil", "nosuchplugin"}[rng.Intn(10)]
-		if rng.Intn(3) != 0 && (name == "synfail" || name == "synnil" || name == "nosuchplugin") {
+		name := []string{"syn", "syn", "syn", "syn4", "syn6", "syn4", "syn6", "synfail", "synnil", "nosuchplugin", "synfailh"}[rng.Intn(11)]
+		if rng.Intn(3) != 0 && (name == "synfail" || name == "synnil" || name == "nosuchplugin" || name == "synfailh") {
 			name = "syn"
 		}
 		c.Chain = append(c.Chain, orderPlug{name, behavs[rng.Intn(len(behavs))]})
@@ -95,7 +95,7 @@ func (orderEngine) Gen(rng *rand.Rand, tier string, i int) any {
 	c.LoadTwice = rng.Intn(2) == 0
 	if rng.Intn(4) == 0 {
 		c.Both = false
-		c.OtherBad = []string{"synfail", "synnil", "nosuchplugin"}[rng.Intn(3)]
+		c.OtherBad = []string{"synfail", "synnil", "nosuchplugin", "synfailh"}[rng.Intn(4)]
 		for j := range c.Chain { // the chain under test itself is clean
 			if c.Chain[j].Name != "syn4" && c.Chain[j].Name != "syn6" {
 				c.Chain[j].Name = "syn"
@@ -225,7 +225,7 @@ func (orderEngine) Run(ctx *fw.Ctx, cs any) {
 			if mustFail == "" {
 				mustFail = "unknown plugin"
 			}
-		case "synfail":
+		case "synfail", "synfailh":
 			if mustFail == "" {
 				mustFail = "failing setup"
 			}
